@@ -19,6 +19,18 @@ func Edit(w *World, t *tape.Tape, prof Profile) string {
 		w.OextAlt = !w.OextAlt
 		return fmt.Sprintf("edit-transitive-import other/ext.T pointer-field=%v", w.OextAlt)
 	}
+	if w.HasExt && t.Chance(1, 4) {
+		// a field of one of the two same-named types of the two same-named imported packages, put first:
+		// which package is mentioned first (and gets the plain import name) changes
+		if d := g.pickCalledStruct(); d != nil && !g.usedAsKey(d.Name) {
+			// ext.T and other/ext.W both need helper functions (slice / pointer and map inside): the generated
+			// file has to import the package and name it in a signature
+			ty := []*Ty{Named("ext", "T"), Named("oext", "W"), Ptr(Named("ext", "T")), Slice(Named("oext", "W"))}[t.Intn(4)]
+			name := fmt.Sprintf("H%d", g.id())
+			d.Fields = append([]Field{{Name: name, Ty: ty}}, d.Fields...)
+			return fmt.Sprintf("add-first-field %s.%s %s", d.Name, name, ty.Str(""))
+		}
+	}
 	for try := 0; try < 4; try++ {
 		k := t.Intn(11)
 		if k == 9 {
@@ -299,4 +311,33 @@ func (g *gen) usedAsKey(name string) bool {
 		visit(c)
 	}
 	return found
+}
+
+// pickCalledStruct: a struct of package p that is the (pointer to the)
+// argument type of a structural derive call, so that a change to its fields
+// shows in the generated file; any struct when there is none.
+func (g *gen) pickCalledStruct() *Decl {
+	var cands []*Decl
+	for _, c := range g.w.Calls {
+		switch c.Plugin {
+		case "equal", "compare", "hash", "clone", "deepcopy":
+		default:
+			continue
+		}
+		for _, a := range c.Args {
+			ty := a.Ty
+			if ty != nil && ty.K == "ptr" {
+				ty = ty.Elem
+			}
+			if ty != nil && ty.K == "named" && ty.Pkg == "" {
+				if d := g.w.decl(ty.Name); d != nil && d.Struct {
+					cands = append(cands, d)
+				}
+			}
+		}
+	}
+	if len(cands) == 0 {
+		return g.pickStruct()
+	}
+	return cands[g.t.Intn(len(cands))]
 }
